@@ -2,52 +2,6 @@
 
 package wsutil
 
-import "io"
-
-// vChunkSrc returns exactly k bytes (k chosen per call) of data per Read.
-type vChunkSrc struct {
-	data    []byte
-	pos     int
-	withErr int // 0: (n, nil); 1: (n, io.EOF) together with the data; 2: (n, transient error)
-	lastErr error
-}
-
-func (s *vChunkSrc) Read(p []byte) (int, error) {
-	n := len(s.data) - s.pos
-	if n > len(p) {
-		n = len(p)
-	}
-	n = vChoose("take", n+1) // any amount 0..n
-	copy(p, s.data[s.pos:s.pos+n])
-	s.pos += n
-	// the io.Reader contract allows data and an error in the same call
-	switch s.withErr {
-	case 1:
-		s.lastErr = io.EOF
-	case 2:
-		s.lastErr = vErrSrc
-	}
-	return n, s.lastErr
-}
-
-// vPartialDst accepts only the first k bytes of a write (k chosen), reporting a short write.
-type vPartialDst struct {
-	all   []byte
-	short bool
-}
-
-func (d *vPartialDst) Write(p []byte) (int, error) {
-	n := len(p)
-	if d.short {
-		n = vChoose("accept", len(p)+1)
-	}
-	d.all = append(d.all, p[:n]...)
-	if n < len(p) {
-		return n, io.ErrShortWrite
-	}
-	return n, nil
-}
-
 // C02_stream_step (inductive step): CipherReader/CipherWriter from an arbitrary running
 // position apply the §5.3 XOR at positions pos..pos+n-1 and advance pos by the bytes moved;
 // an arbitrary chunking is a sequence of such steps.
